@@ -167,12 +167,6 @@ def groupingDiffers (keys : List Key) (pfx delim : Key) : Bool :=
     (codeCP pfx delim k != S3List.groupOf pfx delim k
       || codeKeep pfx delim k != (S3List.groupOf pfx delim k).isNone)
 
-structure Obs where
-  items : List String       -- flattened K (and, for hv, judged separately: D)
-  ditems : List String
-  cps : List Key
-  anyTrunc : Bool
-
 /-- Compare cleaned observation with expectation; name the discrepancy. -/
 def discrepancy (obsI expI : List String) (obsC expC : List Key) : Option String :=
   if obsI == expI && obsC == expC then none
